@@ -27,6 +27,7 @@ def convOk (op : String) (args : List String) : Option String :=
   | "conv.ecdsa", [_, _] => some "ok"
   | "conv.ecdh", [_, _, _] => some "ok"
   | "conv.gen", [_, _] => some "ok"
+  | "conv.recipients", [_] => some "ok"
   | "conv.keyset", [_] => some "ok"
   | "conv.keyset", [_, _, _] => some "ok"
   | _, _ => none
